@@ -18,6 +18,7 @@ Proof.
   intros Hc. unfold initial, open_wal. rewrite (cfg_codec_check c Hc).
   change (dk_inited (e_disk fresh_env)) with false. cbv iota.
   rewrite (io_ok AInitMeta fresh_env eq_refl). cbn [negb].
+  change (armed (io_post AInitMeta fresh_env) && fx_list (e_fx (io_post AInitMeta fresh_env))) with false. cbv iota.
   change (dk_meta (e_disk (io_post AInitMeta fresh_env))) with (@None pstate). cbv iota zeta.
   cbn [ps_segs ps_next_id open_segs rev_append]. cbv iota.
   change (dk_files (e_disk (io_post AInitMeta fresh_env))) with (@nil (fname * dfile)).
